@@ -217,7 +217,8 @@ def check(run):
 
     # ------------------------------------------------------------------ D3 foreign payloads: the checksum comparison decides acceptance
     nacc = nrej = 0
-    for tagb in (0x11, 0x51, 0x91, 0xD1):
+    # the four valid tags and tags no conforming writer produces (what a substituted first character decodes to)
+    for tagb in (0x11, 0x51, 0x91, 0xD1, 0x41, 0x00, 0x50, 0x12, 0xFF):
         for wcb in (0x00, 0xFF, 0x7F):
             for ylen in (2, 0, 1, 3):
                 X = Sym('X', ty='bytes', n=32, key=('foreign', 'X'))
@@ -243,11 +244,13 @@ def check(run):
                         ok = ylen == 2 and any(r is True and 'crc16' in d and 'Y2' in d for d, r in decided_crc) or \
                             ylen == 2 and any(r is False and 'crc16' in d and 'Y2' in d and '!=' in d for d, r in decided_crc)
                         # canonical Cond keys are equalities; polarity handled by the interpreter: accept iff equality decided True
-                        ok = ylen == 2 and any(('crc16' in d and 'Y2' in d and r is True) for d, r in decided_crc)
+                        # the decided equality must be  Y == crc16(exactly the first 34 bytes of THIS payload)  (not of a re-encoded / normalised header)
+                        want = it.cmp(ast.Eq(), Y, Term('crc', K('crc16'), Rope([(K(head), 2), (X, 32)]), K(2)), None) if ylen == 2 else None
+                        ok = ylen == 2 and isinstance(want, Cond) and it.decided.get(want.key) is (True if want.pol else False)
                         fields_ok = isinstance(res.attrs.get('wc'), K) and res.attrs['wc'].v == (wcb - 256 if wcb > 127 else wcb) and res.attrs.get('hash_part') is X
                         run.check(ok and fields_ok, 'D3', 'Address.is_b64[checksum]' if not (ok and fields_ok) else f'accept[tag={tagb:#x},wc={wcb:#x}]',
                                   f'payload tag={tagb:#x} wc={wcb:#x} id=X crc-bytes={"Y" if ylen else "-"}({ylen}): accepted on path [{desc}] ' +
-                                  ('with the checksum equality decided' if ok else 'WITHOUT a decided comparison of the trailing bytes with crc16(first 34)'), w_b64)
+                                  ('with the checksum equality decided' if ok else 'WITHOUT a decided comparison of the trailing bytes with crc16 of the first 34 bytes of this payload (decided instead: ' + str([d for d, r in decided_crc])[:160] + ')'), w_b64)
                     else:
                         nrej += 1
                         ok = res.kind in ('AddressError',)
